@@ -17,14 +17,17 @@ E1_TECH = ('bounded symbolic execution of the real yatiml/PyYAML code with '
 CHECKS = {
     'C11': dict(
         text='Bounded model checking over operation histories: all histories '
-             'of 2 (thorough 3) operations out of 20 (create load/dump/JSON '
-             'functions over a class set or a same-named other set, call '
+             'of 2 (thorough 3) operations out of 25 (create load/dump/JSON '
+             'functions over a class set, a same-named other set or a set whose '
+             'derived classes share a base class with a same-named class of '
+             'another function, call '
              'long-lived functions on valid and invalid input, a JSON dump '
              'that aborts half way); after every step a structural snapshot '
              'of all class-level registries of PyYAML, yatiml, the long-lived '
              'functions and the user classes is unchanged, and afterwards a '
-             'battery of 27 calls (incl. yaml.safe_load/safe_dump probes and '
-             'cross-class-set calls) equals the fresh-function baseline. '
+             'battery of 31 calls (incl. yaml.safe_load/safe_dump probes, '
+             'cross-class-set calls and "each function builds its own '
+             'classes") equals the fresh-function baseline. '
              'Thread schedules are NOT covered.',
         design='4/C11',
         note='Trusted base: CPython, CrossHair, z3; per path everything is '
@@ -35,29 +38,32 @@ CHECKS = {
     'C17': dict(
         text='Bounded model checking of the error-reporting path (real '
              'message builders and difflib, one concrete line per node): a '
-             'valid document of 8 class models with one solver-chosen '
+             'valid document of 10 class models with one solver-chosen '
              'corruption at any node (wrong scalar type, misspelt key, '
              'dropped required key, added key, unknown enum member) must '
              'raise RecognitionError citing only lines inside the document, '
              'among them the line of the corrupted node, its key or an '
-             'enclosing mapping, and quoting the unknown/missing key.',
+             'enclosing mapping, and quoting the unknown/missing key; every '
+             'RecognitionError of the single-mutation document space and of '
+             'the empty document cites a position inside the document.',
         design='4/C17'),
     'C10': dict(
         text='Bounded model checking of the hook calling protocol: for all '
              '2^5 subsets of classes (chain A<-B<-C, sibling, unregistered '
-             'mix-in) defining _yatiml_savorize / _yatiml_sweeten / '
+             'mix-in, also named like a registered class) defining _yatiml_savorize / _yatiml_sweeten / '
              '_yatiml_recognize in their own body, documents and objects '
              'denoting each class at 5 positions: the recorded call trace '
              'equals the base-first own-body hooks of the registered chain, '
              'each once, before the constructor; recognisers are called only '
-             'with their defining class; SeasoningError becomes '
-             'RecognitionError.',
+             'with their defining class; SeasoningError (with or without a '
+             'message) becomes RecognitionError.',
         design='4/C10'),
     'C12': dict(
         text='Bounded end-to-end symbolic execution of the generated load, '
              'dump and dump_json functions on solver-chosen values and '
              'documents (valid and invalid): text written to a file name, a '
-             'Path and a text stream equals the dumps variant for the same '
+             'Path, a text stream and open files with their own encodings '
+             'equals the dumps variant for the same '
              'options; str, Path, text stream and binary stream (UTF-8, BOM, '
              'UTF-16) sources give equal results or the same error class. '
              'The thinnest claim of the set: per path everything is '
@@ -65,8 +71,9 @@ CHECKS = {
         design='4/C12'),
     'C06': dict(
         text='Bounded end-to-end symbolic execution of the public dumps '
-             'function on solver-chosen values of 13 class models: purity '
-             '(structural snapshot), determinism, exactly one well-formed '
+             'function on solver-chosen values of 15 class models: purity '
+             '(structural snapshot), determinism (also of the JSON flavour '
+             'around a refused dump), exactly one well-formed '
              'document, no explicit tag on any node (PyYAML parse events), '
              'and safe_load(text) equal to the independently computed '
              'projection with mapping order significant.',
@@ -78,7 +85,8 @@ CHECKS = {
              'printer, which covers event histories of any length; plus '
              'bounded whole documents through dumps_json (24 tree shapes x 30 '
              'leaves x indent x ensure_ascii: strict RFC 8259, content, '
-             'ASCII/compact defaults) and reload with the matching load '
+             'ASCII/compact defaults), the dump_json sinks judged on their own, '
+             'also after a dump that was aborted half way, and reload with the matching load '
              'function.',
         design='4/C07'),
     'C05': dict(
@@ -87,10 +95,12 @@ CHECKS = {
              'tables of a generated dumper and loader (whatever the dumper '
              'may write plain as str/int/float/bool/null/date comes back with '
              'that type), plus bounded end-to-end symbolic execution of '
-             'load(dumps(v)) == v over the factor space of 12 class models '
+             'load(dumps(v)) == v over the factor space of 14 class models '
              '(adversarial strings, non-finite floats, dates, paths, enums, '
              'string-likes and keys, extras, default-dropping sweeten, '
-             'sweeten/savorize inverse pairs, shared sub-objects).',
+             'sweeten/savorize inverse pairs incl. non-idempotent ones '
+             'inherited from a registered base, shared sub-objects and shared '
+             'string-like keys).',
         design='4/C05',
         technique='SMT (z3 regex theory) over the live dumper/loader resolver '
                   'tables for the all-strings part; CrossHair bounded '
@@ -100,9 +110,10 @@ CHECKS = {
              'only if the dumper resolves its value to str), '
              'float(repr(x))==x, CrossHair, z3.'),
     'C03': dict(
-        text='Bounded model checking of the real Recognizer on five class '
+        text='Bounded model checking of the real Recognizer on seven class '
              'hierarchies (abstract middle, unregistered middle, ambiguous '
-             'fan, diamond, custom discriminating recognisers) and '
+             'fan, diamond, custom discriminating recognisers, custom above '
+             'automatic, abstract by inheritance only) and '
              'Union/Optional types over them with FREE symbolic top-level and '
              'value tags, against the most-derived-unique-match rule; and at '
              'load level every permutation of Union members and of the '
@@ -113,7 +124,9 @@ CHECKS = {
         text='Differential bounded model checking: the real load pipeline '
              'against a naive reference interpreter of the documented rules '
              '(vlib/ref.py) on the symbolic single-mutation document space of '
-             '17 auto-recognised class models (incl. declarative seasoning, '
+             '22 auto-recognised class models (incl. aliases, a defaulted '
+             '_yatiml_extra inside a Union, top-level collections of '
+             'string-written classes, declarative seasoning, '
              'dashed keys, defaults, _yatiml_extra, enums, string-likes, an '
              'abstract hierarchy): rejects iff the reference rejects, '
              'otherwise structurally equal values.',
@@ -124,17 +137,19 @@ CHECKS = {
              'CrossHair, z3; stubs and bounds as listed in the evidence.'),
     'C13': dict(
         text='Oracle-free pairs on the real pipeline: valid and singly '
-             'mutated documents of 16 class models are loaded twice, the '
+             'mutated documents of 19 class models are loaded twice, the '
              'second time with every mapping\'s entries rotated/reversed, '
              'with all scalar/collection styles and marks changed, with three '
              'unrelated classes registered, with List/Sequence/'
              'MutableSequence and Dict/Mapping/MutableMapping interchanged, '
-             'or with bool_union_fix added; both loads must fail or give '
+             'with bool_union_fix added (at the end or right after bool), or '
+             '-- for documents in which one node is an alias of another -- '
+             'rewritten in JSON style with every alias written out; both loads must fail or give '
              'structurally equal values.',
         design='4/C13'),
     'C18': dict(
         text='Oracle-free pairs on the real pipeline: for every ordered pair '
-             'of nodes (i, j) of the base documents of 16 class models (i not '
+             'of nodes (i, j) of the base documents of 19 class models (i not '
              'an ancestor of j; node i optionally retagged), the document in '
              'which j IS node i (what an alias composes to) must load exactly '
              'like the document with a copy of i at j, or both must fail; 9 '
@@ -170,8 +185,9 @@ CHECKS = {
         design='4/C16'),
     'C01': dict(
         text='Bounded model checking of the real load pipeline driven through '
-             'the public load function (composer stubbed): for 16 class '
-             'models, every single-point mutation of valid base documents, '
+             'the public load function (composer stubbed): for 19 class '
+             'models, every single-point mutation of valid base documents '
+             '(one kind of which turns a node into an alias of another), '
              'with a free symbolic tag, palette (tag, value) pairs, '
              'collection shapes and keys, and the empty stream; the returned '
              'value and every recorded __init__ call are checked against the '
@@ -195,7 +211,9 @@ CHECKS = {
              'replayed through load_function()). Plus bounded end-to-end '
              'symbolic execution of the public load function over all strings '
              'up to length 3 (thorough 5) over the number alphabet and case '
-             'variants of boolean look-alikes.',
+             'variants of boolean/number look-alikes (incl. non-ASCII '
+             'digits), each also at positions typed bool/float/int/str/'
+             'List[float], which must agree with the resolver.',
         design='4/C09',
         technique='SMT (z3 string/regex theory) over the real resolver '
                   'tables, unbounded in string length; CrossHair bounded '
